@@ -90,51 +90,107 @@ def run(ctx: Ctx):
            f"the accumulated terms are {terms} over the layout `{layout}`; expected the number of frames, the sum and the "
            f"sum of squares over axis 1 of x.transpose(0, dim)...flatten(1)", rel, acc.line, sample=terms)
     # ---- store: formulas -------------------------------------------------------------------------------------------
-    rds = ReachingDefs(store.node)
-    alias_s = {}
-    for d in rds.defs:
-        if d.kind == "assign" and isinstance(d.value, ast.Attribute) and u(d.value.value) == "self" and d.value.attr in STATS:
-            alias_s[d.name] = d.value.attr.upper()
-    ren = lambda s: alias_s.get(s, s)
-    nz = Normalizer(rename=ren)
-    mean_def = var_def = None
-    for n in own_nodes(store.node):
-        if isinstance(n, ast.Assign) and any(u(t) == "self.mean" for t in n.targets):
-            mean_def = n
-        if isinstance(n, ast.Assign) and isinstance(n.value, ast.BinOp) and isinstance(n.value.op, ast.Sub) and "square" in u(n.value):
-            var_def = n
-    inl_s = Inliner(store.node, rds, keep=set(alias_s))
-    okmean = mean_def is not None and nz.expr_str(inl_s.expand(mean_def.value)) == "((SUM)/(COUNT))"
-    # var = sumsq / count - M.square() with M the mean (by name or written out)
-    okvar = False
-    if var_def is not None:
-        vv = var_def.value
-        sq = vv.right
-        if isinstance(sq, ast.Call) and isinstance(sq.func, ast.Attribute) and sq.func.attr == "square" and not sq.args:
-            okvar = nz.expr_str(inl_s.expand(vv.left)) == "((SUMSQ)/(COUNT))" and nz.expr_str(inl_s.expand(sq.func.value)) == "((SUM)/(COUNT))"
-    col.ob("G12", "S1", f"{W('store')}::mean=sum/count", okmean,
-           f"mean is `{u(mean_def.value) if mean_def is not None else None}`", rel, store.line)
-    col.ob("G12", "S1", f"{W('store')}::var=sumsq/count-mean^2", bool(okvar),
-           f"variance is `{u(var_def.value) if var_def is not None else None}` (normal form "
-           f"{nz.expr_str(var_def.value) if var_def is not None else None})", rel, store.line)
-    pm = parent_map(store.node)
-    bes = [n for n in own_nodes(store.node) if isinstance(n, ast.AugAssign) and isinstance(n.op, ast.Mult)]
-    okb = len(bes) == 1 and nz.expr_str(bes[0].value) == "((COUNT)/(-1 + COUNT))" and any(
-        u(t) == "bessel" and pol for t, pol in guards_of(pm, bes[0])) and var_def is not None and u(bes[0].target) == u(var_def.targets[0])
-    col.ob("G12", "S1", f"{W('store')}::bessel=count/(count-1)", okb,
-           f"Bessel's correction is `{u(bes[0]) if bes else None}`; expected var *= count / (count - 1) under `bessel`", rel, store.line)
-    stdd = [n for n in own_nodes(store.node) if isinstance(n, ast.Assign) and any(u(t) == "self.std" for t in n.targets)]
-    def _is_root_of_var(v):
-        # <var>[.clamp_min(0) | .clamp(min=0) | .relu()].sqrt[_]()  - the clamp only removes negative rounding
-        if not (isinstance(v, ast.Call) and isinstance(v.func, ast.Attribute) and v.func.attr in ("sqrt", "sqrt_") and not v.args):
-            return False
-        inner = v.func.value
-        while isinstance(inner, ast.Call) and isinstance(inner.func, ast.Attribute) and inner.func.attr in (
-                "clamp_min", "clamp_min_", "clamp", "clamp_", "relu", "relu_"):
-            inner = inner.func.value
-        return var_def is not None and u(inner) == u(var_def.targets[0])
-    col.ob("G12", "S1", f"{W('store')}::std=sqrt(var)", len(stdd) == 1 and _is_root_of_var(stdd[0].value),
-           "std is not the square root of the variance", rel, store.line)
+    # The stored mean and standard deviation as functions of (count, sum, sumsq): `store` specialised on each value of `bessel`,
+    # the right-hand sides forward-substituted, and the resulting expressions evaluated over rationals at a few points (an
+    # evaluator over the syntax tree - nothing of the repository runs). Whether the variance gets a name, the correction is an
+    # in-place `*=` or a factor, the root is in place or not, does not matter.
+    from fractions import Fraction
+    from sa.specialise import specialise
+
+    class _NoF(Exception):
+        pass
+
+    def _ev_stat(e, env, inl, depth=0):
+        if depth > 40:
+            raise _NoF("depth")
+        if isinstance(e, ast.Constant) and isinstance(e.value, (int, float)) and not isinstance(e.value, bool):
+            return Fraction(str(e.value))
+        if isinstance(e, ast.Attribute) and u(e.value) == "self" and e.attr in STATS:
+            return env[e.attr]
+        if isinstance(e, ast.Name):
+            v = inl.value_of(e)
+            if v is None:
+                raise _NoF(f"`{e.id}`")
+            return _ev_stat(v, env, inl, depth + 1)
+        if isinstance(e, ast.UnaryOp) and isinstance(e.op, ast.USub):
+            return -_num(_ev_stat(e.operand, env, inl, depth + 1))
+        if isinstance(e, ast.BinOp):
+            x, y = _num(_ev_stat(e.left, env, inl, depth + 1)), _num(_ev_stat(e.right, env, inl, depth + 1))
+            if isinstance(e.op, ast.Add):
+                return x + y
+            if isinstance(e.op, ast.Sub):
+                return x - y
+            if isinstance(e.op, ast.Mult):
+                return x * y
+            if isinstance(e.op, ast.Div):
+                return x / y
+            if isinstance(e.op, ast.Pow) and y.denominator == 1:
+                return x ** int(y)
+            raise _NoF(u(e)[:40])
+        if isinstance(e, ast.Call):
+            cn = call_name(e)
+            if isinstance(e.func, ast.Attribute) and not cn.startswith("torch."):
+                recv, m, args = e.func.value, e.func.attr, e.args
+            elif cn.startswith("torch.") and e.args:
+                recv, m, args = e.args[0], cn.split(".")[-1], e.args[1:]
+            else:
+                raise _NoF(u(e)[:40])
+            x = _ev_stat(recv, env, inl, depth + 1)
+            if m in ("square", "square_") and not args:
+                return _num(x) * _num(x)
+            if m in ("pow", "pow_") and len(args) == 1 and u(args[0]) == "2":
+                return _num(x) * _num(x)
+            if m in ("clamp_min", "clamp_min_") and len(args) == 1 and u(args[0]) in ("0", "0.0"):
+                return ("clamp0", x)
+            if m in ("relu", "relu_") and not args:
+                return ("clamp0", x)
+            if m in ("sqrt", "sqrt_") and not args:
+                return ("sqrt", x)
+            if m in ("double", "float", "clone", "detach", "to", "type_as", "contiguous"):
+                return x
+            raise _NoF(u(e)[:40])
+        raise _NoF(u(e)[:40])
+
+    def _num(x):
+        if isinstance(x, tuple):
+            raise _NoF("arithmetic on a root / clamp")
+        return x
+    PTS = [dict(count=Fraction(2), sum=Fraction(3), sumsq=Fraction(7)), dict(count=Fraction(5), sum=Fraction(1), sumsq=Fraction(9)),
+           dict(count=Fraction(3), sum=Fraction(-4), sumsq=Fraction(11)), dict(count=Fraction(7), sum=Fraction(2), sumsq=Fraction(5))]
+    for bval in (True, False):
+        try:
+            node_b, _ = specialise(store.node, {"bessel": bval}, inline_tests=True)
+            rdb = ReachingDefs(node_b)
+            inl_b = Inliner(node_b, rdb)
+            outs = {}
+            for n in ast.walk(node_b):
+                if isinstance(n, ast.Assign):
+                    for t in n.targets:
+                        if u(t) in ("self.mean", "self.std"):
+                            outs.setdefault(u(t), []).append(n.value)
+            badm = bads = None
+            if len(outs.get("self.mean", [])) != 1 or len(outs.get("self.std", [])) != 1:
+                badm = bads = f"stores found: { {k: len(v) for k, v in outs.items()} }"
+            else:
+                for env in PTS:
+                    C, S_, Q = env["count"], env["sum"], env["sumsq"]
+                    gm = _ev_stat(inl_b.expand(outs["self.mean"][0]), env, inl_b)
+                    if gm != S_ / C and badm is None:
+                        badm = f"at (count, sum, sumsq) = ({C}, {S_}, {Q}) the stored mean is {gm}, expected {S_ / C}"
+                    gs = _ev_stat(inl_b.expand(outs["self.std"][0]), env, inl_b)
+                    V = Q / C - (S_ / C) ** 2
+                    if bval:
+                        V = V * C / (C - 1)
+                    inner = gs[1] if isinstance(gs, tuple) and gs[0] == "sqrt" else None
+                    if isinstance(inner, tuple) and inner[0] == "clamp0":
+                        inner = inner[1]
+                    if (inner is None or isinstance(inner, tuple) or inner != V) and bads is None:
+                        bads = f"at (count, sum, sumsq) = ({C}, {S_}, {Q}) the stored std is {gs}, expected the root of {V}"
+            col.ob("G12", "S1", f"{W('store')}::mean=sum/count[bessel={bval}]", badm is None, f"{badm}", rel, store.line)
+            col.ob("G12", "S1", f"{W('store')}::std=sqrt(var)[bessel={bval}]", bads is None,
+                   f"{bads} (variance = sumsq / count - mean^2" + (", times count / (count - 1)" if bval else "") + ")", rel, store.line)
+        except _NoF as ex_:
+            col.undecided(f"{W('store')}: the stored statistics are outside the evaluated fragment ({ex_})")
     # store reads only the three statistics
     reads = {x.attr for x in own_nodes(store.node) if isinstance(x, ast.Attribute) and isinstance(x.ctx, ast.Load) and u(x.value) == "self"}
     col.ob("G16", "S1", f"{W('store')}::reads-only-the-statistics", reads <= set(STATS),
@@ -171,9 +227,24 @@ def run(ctx: Ctx):
     # ---- S3 discounted return: gamma == 0 returns the rewards themselves; layouts are transposes of each other ---
     tdr = pkg.func("_rl::time_distributed_return")
     pmt = parent_map(tdr.node)
-    z = [n for n in own_nodes(tdr.node) if isinstance(n, ast.Return) and any(u(t) == "not gamma" and pol for t, pol in guards_of(pmt, n))]
-    col.ob("G9", "S3", "_rl.py::time_distributed_return::gamma==0-returns-r", len(z) == 1 and u(z[0].value) == "r",
-           "with gamma == 0 the function does not return the rewards themselves (R_t = r_t)", "_rl.py", tdr.line)
+    # specialised on gamma == 0 (the test may be `not gamma`, `gamma == 0`, or the complement of `if gamma:`), every return that
+    # remains either hands back the rewards (possibly copied) or is the general matrix path, which the next rule derives
+    from sa.specialise import specialise as _spec
+    from sa.inline import Inliner as _Inl0
+    gname_ = tdr.params[1].name
+    rname_ = tdr.params[0].name
+    node0, _ = _spec(tdr.node, {gname_: 0.0}, inline_tests=True)
+    inl0 = _Inl0(node0)
+    rets0 = [n for n in ast.walk(node0) if isinstance(n, ast.Return) and n.value is not None]
+    bad0 = []
+    for n in rets0:
+        x = inl0.expand(n.value)
+        same = u(x) in (rname_, f"{rname_}.clone()", f"{rname_} + 0", f"{rname_} * 1")
+        general = any(isinstance(c, ast.Call) and call_name(c).split(".")[-1] in ("matmul", "mm", "bmm", "einsum") for c in ast.walk(x))
+        if not (same or general):
+            bad0.append(u(n.value))
+    col.ob("G9", "S3", "_rl.py::time_distributed_return::gamma==0-returns-r", bool(rets0) and not bad0,
+           f"with gamma == 0 the function returns {bad0}, not the rewards themselves (R_t = r_t)", "_rl.py", tdr.line)
     # the discount matrix, derived symbolically per layout: R[t] = sum over t' >= t of gamma^(t' - t) r[t']
     _discount_matrix(ctx, tdr)
     # ---- S4 feat_deltas: each dimension argument is normalised against the rank of the tensor it indexes -----------
@@ -221,8 +292,8 @@ def _delta_dims(ctx: Ctx):
     n_ok = 0
     for conc in (True, False):
         node, folded = specialise(f.node, {"concatenate": conc})
-        if folded < 2:
-            raise AnalysisError("C18: feat_deltas no longer branches on `concatenate` twice")
+        if folded < 1:
+            raise AnalysisError("C18: feat_deltas no longer branches on `concatenate`")
         rd = ReachingDefs(node)
 
         def leaf_of_expr(e):
@@ -379,7 +450,8 @@ def _discount_matrix(ctx: Ctx, tdr):
         pass
 
     for bf in (True, False):
-        node, folded = specialise(tdr.node, {"batch_first": bf})
+        # (also specialised on a non-zero gamma: the gamma == 0 shortcut, however it is written, is the previous rule's business)
+        node, folded = specialise(tdr.node, {"batch_first": bf, gname: 0.5}, inline_tests=True)
         if folded < 1:
             raise AnalysisError("C18: time_distributed_return no longer branches on batch_first")
         rd = ReachingDefs(node)
@@ -597,14 +669,15 @@ def _mutants():
         M("count-overwritten", F, "count += x.size(1)", "count.fill_(x.size(1))", "count+=term(x)"),
         M("sumsq-of-sum", F, "sumsq += x.square().sum(1)", "sumsq += x.sum(1).square()", "accumulate::terms"),
         M("count-batches-not-frames", F, "count += x.size(1)", "count += 1", "accumulate::terms"),
-        M("var-without-mean-sq", F, "var = sumsq / count - mean.square()", "var = sumsq / count - mean", "var=sumsq/count-mean^2"),
-        M("bessel-inverted", F, "var *= count / (count - 1)", "var *= (count - 1) / count", "bessel=count/(count-1)"),
-        M("bessel-always", F, "if bessel:\n            var *= count / (count - 1)", "var *= count / (count - 1)", "bessel=count/(count-1)"),
+        M("var-without-mean-sq", F, "var = sumsq / count - mean.square()", "var = sumsq / count - mean", "std=sqrt(var)"),
+        M("bessel-inverted", F, "var *= count / (count - 1)", "var *= (count - 1) / count", "std=sqrt(var)"),
+        M("bessel-always", F, "if bessel:\n            var *= count / (count - 1)", "var *= count / (count - 1)", "std=sqrt(var)"),
         M("mean-by-sumsq", F, "self.mean = mean = sum_ / count", "self.mean = mean = sumsq / count", "mean=sum/count"),
         M("own-std-bessel", F, "std = x.transpose(0, dim).unsqueeze(-1).flatten(1).double().std(1, False)", "std = x.transpose(0, dim).unsqueeze(-1).flatten(1).double().std(1, True)", "own-statistics"),
         M("module-drops-eps", F, "return mean_var_norm(x, self.dim, self.mean, self.std, self.eps)", "return mean_var_norm(x, self.dim, self.mean, self.std)", "G5/S2"),
         M("cli-bessel-unread", C, "mvn.store(bessel=options.bessel)", "mvn.store()", "G"),
-        M("gamma0-copy", R, "if not gamma:\n        return r", "if not gamma:\n        return r.clone()", "gamma==0-returns-r"),
+        M("gamma0-zeros", R, "if not gamma:\n        return r", "if not gamma:\n        return torch.zeros_like(r)", "gamma==0-returns-r"),
+        M("twin:gamma0-copy", R, "if not gamma:\n        return r", "if not gamma:\n        return r.clone()", "", twin=True),
         M("layout-asymmetry", R, "discount = torch.pow(gamma, exp).triu()", "discount = torch.pow(gamma, exp).tril()", "discount-matrix[batch_first=False]"),
         M("both-layouts-discount-the-past", R, "exp = (exp.unsqueeze(1) - exp.unsqueeze(0)).clamp_min(0)", "exp = (exp.unsqueeze(0) - exp.unsqueeze(1)).clamp_min(0)", "discount-matrix[batch_first=True]"),
         M("time-extent-from-batch-axis", R, "exp = torch.arange(r.size(1), device=r.device, dtype=r.dtype)", "exp = torch.arange(r.size(0), device=r.device, dtype=r.dtype)", "discount-matrix[batch_first=True]"),
